@@ -143,6 +143,7 @@ CFG = {
             "parsed + freshly built transformer's answer, with the Lean model's answer, and the SR states with the model's. "
             "Second round: +R_A/+rf/+from_greenwich/+to_meter references; NewTransform as a history step (transformers built between calls, state tags checked before and after every call); gt lines run three calls (identical repeat, then after in-place mutation of the operand) with late re-check of earlier results, inputs laid out as windows of one flat buffer / prefix re-slices / nil-for-empty, dyadic scales, size thresholds 63..2048. "
             "Phase 3: consecutive calls of one transformer repeat the previous input exactly (30 %) or as a NEAR duplicate (25 %: one coordinate equal, the other 1 ulp / 1e-10 / 1e-7 relative / 0.25 away) so approximately or half keyed memos answer from the wrong entry. "
+            "Round h: twin references (base and base + one boolean flag: +south for utm zones 1..60 at southern points, +czech, +R_A) side by side in one history, either twin first; on lines with twins the fresh transformer's answer comes from a process of its own (c10 fresh1), so per-process caches cannot pollute the reference. "
             "distinct = distinct input line; non-trivial = class not nocalls/skipped/bad",
     "trivial_class": r"(nocalls|skipped|^gt-bad|^hist-bad)",
     "timeout": {"quick": 600, "thorough": 3000},
